@@ -24,6 +24,9 @@ func cloneScenario(c *Scenario) *Scenario {
 
 func init() {
 	generators["C04"] = func(seed uint64, tier string) []*Scenario {
+		if seed%5 >= 3 {
+			return one(genC04W2(seed)) // the receiver clause against a scripted peer
+		}
 		p := profile{maxFiles: 8, maxFaults: 4, orders: true, deletes: true, fineNet: true, hotGates: true, recvCrashes: 1, sendCrashes: 1, corrupt: 1, recvErrs: 1, dirs: true}
 		sc := genW1("C04", seed, p)
 		forceOrdered(sc, seed)
@@ -66,6 +69,12 @@ func init() {
 		base := genW1("C06", seed, p)
 		base.FaultFree = true
 		base.Faults, base.RecvErrAt, base.SendCrashAt = nil, nil, 0
+		if seed%3 == 0 {
+			// a payload damaged in transit: the crash points around validation
+			// are then met with content that must NOT be delivered
+			base.Faults = []FaultSpec{{Req: "data", Nth: 1 + int(seed>>7)%3, Fate: connFate{Kind: "flip_req", Arg: 5 + int(seed>>11)%200}}}
+			base.Send.Compression = 0
+		}
 		forceOrdered(base, seed)
 		smallChunks(base, seed)
 		base.DownTime = []time.Duration{time.Second, 10 * time.Second, 90 * time.Second}[seed%3]
